@@ -2,6 +2,8 @@
 the working tree's src and the check recorded in its meta.json as catching it must report a VIOLATION.
 
   check.py selftest sensitivity [name-prefix ...]
+
+With VERIF_SENS_CATCHERS=C12,C14 only the entries whose recorded first catcher is one of the listed checks are run.
 """
 from __future__ import annotations
 
@@ -20,9 +22,12 @@ def main(args: List[str], seed: int, jobs: int) -> int:
     if args:
         names = [n for n in names if any(n.startswith(a) for a in args)]
     fails = 0
+    only = [c for c in os.environ.get("VERIF_SENS_CATCHERS", "").split(",") if c]
     for n in names:
         meta = json.load(open(os.path.join(base, n, "meta.json")))
         expected = meta.get("caught_by") or []
+        if only and (not expected or expected[0] not in only):
+            continue
         if not expected:
             print("sensitivity %-10s (recorded as not caught: %s)" % (n, meta.get("why_not_caught", "?")[:80]))
             continue
@@ -30,7 +35,7 @@ def main(args: List[str], seed: int, jobs: int) -> int:
         p = subprocess.run([sys.executable, os.path.join(ROOT, "tools", "run_mutant.py"),
                             os.path.join(base, n, "patch.diff"), pid, "--seed", str(seed)],
                            capture_output=True, text=True)
-        ok = p.returncode == 0
+        ok = p.returncode == 0 and "CAUGHT-BY: %s" % pid in p.stdout
         print("sensitivity %-10s %s by %s" % (n, "caught" if ok else "MISSED", pid), flush=True)
         if not ok:
             fails += 1
